@@ -142,7 +142,69 @@ class FolderV(PathV):
 
     def _pyvc_binop(self, eng: Engine, op: str, other: Any, refl: bool) -> Any:
         r = super()._pyvc_binop(eng, op, other, refl)
-        return PathV(r.s)
+        return FilePathV(r.s)
+
+
+class FilePathV(PathV):
+    """A path below the output folder over symbolic text.  `with_suffix(s)` follows pathlib: the text after the LAST dot
+    of the last component is REPLACED (when that dot is neither first nor last character of the component), otherwise
+    s is appended.  Encoded as a two-way split with fresh stem / old-suffix strings; the 'appended' branch carries no
+    side condition (an over-approximation of pathlib, so a discharge stays sound; a refutation is replayed natively)."""
+
+    def _pyvc_binop(self, eng: Engine, op: str, other: Any, refl: bool) -> Any:
+        r = super()._pyvc_binop(eng, op, other, refl)
+        return FilePathV(r.s)
+
+    def _split(self, eng: Engine) -> Tuple[Any, Any, Any]:
+        stem, old = eng.decls.fresh("path.stem", smt.STR), eng.decls.fresh("path.oldsuffix", smt.STR)
+        rest = smt.Substr(old, 1, smt.Len(old))
+        cond = And(Eq(self.s, smt.Concat(stem, old)), smt.app(smt.BOOL, "str.prefixof", ".", old), smt.Ge(smt.Len(old), 2),
+                   Not(smt.app(smt.BOOL, "str.contains", rest, ".")), Not(smt.app(smt.BOOL, "str.contains", old, "/")),
+                   smt.Ge(smt.Len(stem), 1), Not(smt.app(smt.BOOL, "str.suffixof", "/", stem)))
+        return stem, old, cond
+
+    def _pyvc_getattr(self, eng: Engine, name: str) -> Any:
+        me = self
+        if name == "with_suffix":
+            def ws(e: Engine, suffix: Any) -> Any:
+                stem, _old, cond = me._split(e)
+                if e.choose(2, [True, cond]) == 0:
+                    return FilePathV(smt.Concat(me.s, suffix))
+                return FilePathV(smt.Concat(stem, suffix))
+            return native(ws)
+        if name == "suffix":
+            stem, old, cond = me._split(eng)
+            return "" if eng.choose(2, [True, cond]) == 0 else old
+        if name in ("with_name", "with_stem", "name", "stem", "parent", "resolve", "absolute", "expanduser"):
+            raise OutsideSubset(f"Path.{name} on the output file path")
+        return super()._pyvc_getattr(eng, name)
+
+
+#: names a VTL result may legally have that stress path construction (dots, SDMX-style versions, spaces, leading dot)
+PATH_NAMES = ["DS_r", "DS.a", "DS.b", "BIS:DF(1.0)", "a.b.c", "x.", ".hidden", "DS 1", "v1.0.csv", "R.parquet"]
+
+
+def native_path_probe(das: bool = False) -> Tuple[Optional[bool], str, Any]:
+    """Differential probe of the REAL save_datapoints_duckdb over PATH_NAMES x formats (used when the symbolic execution
+    leaves the subset, so that an existing counterexample is found instead of answering 'undecided')."""
+    for nm in PATH_NAMES:
+        for fmt in ("csv", "parquet"):
+            bad, det, wit = native_save_datapoints(nm, "SELECT 1", fmt, das)
+            if bad:
+                return True, det, wit
+    return False, f"real save_datapoints_duckdb writes <folder>/<name>.<format> for {PATH_NAMES} x csv/parquet", None
+
+
+def resolve_undecided_natively(ob: Any, key: str, das: bool = False) -> None:
+    """An obligation left undecided only because a construct is outside the symbolic subset is decided natively when
+    a counterexample exists (it then is a replayed violation); otherwise it stays undecided."""
+    if ob.status != UNDECIDED or "outside the subset" not in ob.detail:
+        return
+    bad, det, wit = native_path_probe(das)
+    if bad:
+        ob.status, ob.backend = REFUTED, "native-differential-probe"
+        ob.detail = f"symbolic execution left the subset ({ob.detail[:120]}); native probe over adversarial names: {det}"
+        ob.witness, ob.replayed, ob.replay_detail, ob.finding_key = wit, True, det, key
 
 
 def new_engine() -> Engine:
@@ -203,9 +265,15 @@ def contract_save_datapoints(chk: Check) -> None:
         tag = "delete_after_save" if das else "keep"
 
         def replay(model: Dict[str, str], p: PathResult, das: bool = das) -> Tuple[Optional[bool], str, Any]:
-            return native_save_datapoints(core.smt_str(model["name"]) or "DS_r", core.smt_str(model["select_sql"]),
-                                          core.smt_str(model["format"]), das)
-        discharge(chk, eng, f, f"rejects-unknown-format::{tag}",
+            fmt_m = core.smt_str(model["format"])
+            last: Tuple[Optional[bool], str, Any] = (False, "", None)
+            # the solver's name first, then legal VTL names of the same kind (a dot inside the name)
+            for nm in [core.smt_str(model["name"]) or "DS_r", "DS.a", "BIS:DF(1.0)"]:
+                last = native_save_datapoints(nm, core.smt_str(model["select_sql"]), fmt_m, das)
+                if last[0]:
+                    return last
+            return last
+        ob_fmt = discharge(chk, eng, f, f"rejects-unknown-format::{tag}",
                   "output_format not in {'csv','parquet'}  <=>  raises InputValidationException 0-1-1-16, and then no "
                   "statement is executed (all format strings)",
                   paths, pre, lambda p: And(smt.Iff(is_exc(p, "InputValidationException", "0-1-1-16"),
@@ -222,12 +290,14 @@ def contract_save_datapoints(chk: Check) -> None:
                 return False
             ok = Eq(ex[0], expected_copy(sel, folder, name, fmt))
             return And(ok, Eq(ex[1], want_drop)) if das else ok
-        discharge(chk, eng, f, f"one-copy-of-the-select-into-name.format::{tag}",
+        resolve_undecided_natively(ob_fmt, "save_datapoints_duckdb::format-check", das)
+        ob_copy = discharge(chk, eng, f, f"one-copy-of-the-select-into-name.format::{tag}",
                   "returns => exactly one COPY is executed and its text is COPY (<select_sql>) TO '<folder>/<name>.<format>' "
                   f"with options {CSV_OPTS!r} for csv / {PQ_OPTS!r} for parquet" +
                   ("; followed by DROP TABLE IF EXISTS of the table" if das else "; nothing is dropped"),
                   paths, pre, post, mv, replay, lambda m, p: "save_datapoints_duckdb::copy-text",
                   include_site_obligations=False)
+        resolve_undecided_natively(ob_copy, "save_datapoints_duckdb::copy-text", das)
     cover(chk, eng, f, "pre", pre + [Eq(fmt, "csv")], "a non-empty select text and format csv")
     chk.assume("conn.execute(text) runs exactly the statement `text` (recorded symbolically); pathlib.Path(folder) / name "
                "denotes '<folder>/<name>'")
@@ -245,7 +315,7 @@ def native_save_datapoints(name: str, sel: str, fmt: str, das: bool) -> Tuple[Op
         def execute(self, sql: str, *a: Any) -> "Fake":
             log.append(sql)
             return self
-    name = re.sub(r"[^A-Za-z0-9_]", "_", name) or "DS_r"
+    name = re.sub(r"[/\x00-\x1f]", "_", name) or "DS_r"        # dots, colons, parentheses, spaces stay: legal in VTL names
     sel = sel or "SELECT 1"
     try:
         io.save_datapoints_duckdb(Fake(), name, Path("/tmp/out"), delete_after_save=das, select_sql=sel, output_format=fmt)
@@ -320,12 +390,21 @@ def contract_fetch_result(chk: Check) -> None:
             return False
         same_obj = p.value is ds_f and builds[0][2] is ds_f and ds_f.attrs.get("data") is None
         return And(same_obj, Eq(ex[0], expected_copy(FS, folder, name, fmt)))
-    discharge(chk, eng, f, "output-folder::copy-consumes-the-fetch-select",
-              "with an output folder (format csv or parquet): the ONLY statement executed is COPY (FETCH) TO "
-              "'<folder>/<result_name>.<format>' where FETCH is the text returned by _build_dataset_fetch_select for this "
-              "result; nothing is fetched into memory; the returned object is the semantic-analysis Dataset and its .data is "
-              "still None",
-              paths_f, pre, post_folder, mv, replay, lambda m, p: "fetch_result::folder-branch", include_site_obligations=False)
+    ob_f = discharge(chk, eng, f, "output-folder::copy-consumes-the-fetch-select",
+                     "with an output folder (format csv or parquet), for ALL result names (arbitrary strings, dots included): the "
+                     "ONLY statement executed is COPY (FETCH) TO '<folder>/<result_name>.<format>' where FETCH is the text "
+                     "returned by _build_dataset_fetch_select for this result; nothing is fetched into memory; the returned "
+                     "object is the semantic-analysis Dataset and its .data is still None",
+                     paths_f, pre, post_folder, mv, replay, lambda m, p: "fetch_result::folder-branch",
+                     include_site_obligations=False)
+    if ob_f.status == UNDECIDED and "outside the subset" in ob_f.detail:
+        for fm in ("csv", "parquet"):
+            bad_n, det_n, wit_n = native_fetch_result(fm)
+            if bad_n:
+                ob_f.status, ob_f.backend = REFUTED, "native-differential-probe"
+                ob_f.detail = f"symbolic execution left the subset ({ob_f.detail[:100]}); native probe: {det_n}"
+                ob_f.witness, ob_f.replayed, ob_f.replay_detail, ob_f.finding_key = wit_n, True, det_n, "fetch_result::folder-branch"
+                break
     ds_m, paths_m = results["memory"]
 
     def post_memory(p: PathResult) -> Any:
@@ -379,7 +458,17 @@ def contract_fetch_result(chk: Check) -> None:
 
 
 def native_fetch_result(fmt: str) -> Tuple[Optional[bool], str, Any]:
-    """Real fetch_result on the real DuckDB: file (read back) vs in-memory frame for one small table."""
+    """Real fetch_result on the real DuckDB for result names without and with dots (legal VTL names)."""
+    last: Tuple[Optional[bool], str, Any] = (False, "", None)
+    for nm in ("R", "DS.a", "BIS:DF(1.0)"):
+        last = _native_fetch_result(fmt, nm)
+        if last[0]:
+            return last
+    return last
+
+
+def _native_fetch_result(fmt: str, rn: str) -> Tuple[Optional[bool], str, Any]:
+    """Real fetch_result on the real DuckDB: file (read back) vs in-memory frame for one small table named rn."""
     core.boot(full=True)
     import importlib
     import tempfile
@@ -395,14 +484,15 @@ def native_fetch_result(fmt: str) -> Tuple[Optional[bool], str, Any]:
     try:
         # a table whose raw dump differs from the fetch select: DATE / TIMESTAMP columns, a column outside the structure,
         # physical column order different from the structure's
-        con.execute('CREATE TABLE "R" AS SELECT * FROM (VALUES (7, DATE \'2020-01-15\', 1, \'a,b\', TIMESTAMP \'2020-01-15 10:30:00\'), '
+        con.execute(f'CREATE TABLE "{rn}" AS SELECT * FROM (VALUES (7, DATE \'2020-01-15\', 1, \'a,b\', TIMESTAMP \'2020-01-15 10:30:00\'), '
                     '(8, NULL, 2, NULL, NULL), (9, DATE \'1999-12-31\', 3, \'\', TIMESTAMP \'2021-02-03 00:00:00\')) '
                     't("zz", "Me_2", "Id_1", "Me_1", "Me_3")')
-        mem = ex.fetch_result(con, "R", None, {"R": M.Dataset("R", dict(comps), None)}, {}, None, fmt)
-        fil = ex.fetch_result(con, "R", Path(d), {"R": M.Dataset("R", dict(comps), None)}, {}, None, fmt)
-        p = Path(d) / f"R.{fmt}"
+        mem = ex.fetch_result(con, rn, None, {rn: M.Dataset(rn, dict(comps), None)}, {}, None, fmt)
+        fil = ex.fetch_result(con, rn, Path(d), {rn: M.Dataset(rn, dict(comps), None)}, {}, None, fmt)
+        p = Path(d) / (rn + "." + fmt)
         if not p.exists():
-            return True, f"no file {p.name} written; folder has {[x.name for x in Path(d).iterdir()]}", None
+            return True, f"result {rn!r}: no file {p.name!r} written; the folder holds {sorted(x.name for x in Path(d).iterdir())}", \
+                {"result_name": rn, "format": fmt, "expected_file": p.name, "files": sorted(x.name for x in Path(d).iterdir())}
         back = con.execute(f"SELECT * FROM read_parquet('{p}')" if fmt == "parquet" else
                            f"SELECT * FROM read_csv('{p}', header=true, all_varchar=true, allow_quoted_nulls=false)").fetchdf()
         def rows(df: Any) -> List[str]:
